@@ -147,7 +147,30 @@ def gen_cases(rng, tier, search):
                       bs=None, mode='heuristic', hseed=1))
     cases.append(dict(n_il=5, n_xl=6, pattern='d20_zero_inside', present=['011111', '111111', '111011', '111111', '111110'],
                       il0=-6, ils=3, xl0=-100, xls=2, ns=9, bpv=16, bs=None, mode='thorough', hseed=2))
+    cases += rerun_cases(rng)
     return cases
+
+
+# the SAME converter object run twice: key 'first' = (bits per voxel, blockshape) of an earlier run() of the converter that
+# then writes the file under test with (bpv, bs).  The file must be what a fresh converter writes: the whole oracle (and the
+# correspondence) of run_case applies to it unchanged.  More than 8 inlines, so that the two block shapes (first dimension
+# 4 / 8 / 16) cut the inline axis into different plane sets.
+RERUNS = [((9, 4), (16, (4, 4, -1)), (8, (8, 4, -1))), ((12, 3), (8, None), (16, (16, 4, -1))),
+          ((10, 5), (16, (4, 8, -1)), (8, (8, 8, -1))), ((17, 3), (8, (8, 4, -1)), (16, (16, 4, -1))),
+          ((13, 2), (4, None), (4, (16, 16, -1)))]
+
+
+def rerun_cases(rng):
+    out = []
+    for k, ((n_il, n_xl), first, (bpv, bs)) in enumerate(RERUNS):
+        pats = patterns(n_il, n_xl, rng)
+        for name, p in (pats[rng.randrange(len(pats))], [q for q in pats if q[0].startswith('random')][-1]):
+            il0, ils = axis_params(rng, n_il, zero_prob=0)
+            xl0, xls = axis_params(rng, n_xl, ils, zero_prob=0.25)
+            out.append(dict(n_il=n_il, n_xl=n_xl, pattern=name, present=[''.join('1' if v else '0' for v in row) for row in p],
+                            il0=il0, ils=ils, xl0=xl0, xls=xls, ns=rng.choice([2, 3, 5, 8, 9]), bpv=bpv, bs=bs,
+                            mode=MODES[k % 3], hseed=rng.randrange(10 ** 6), first=[first[0], first[1]]))
+    return out
 
 
 # ------------------------------------------------------------------------------------------------ one case
@@ -172,6 +195,59 @@ LISTED = set()
 
 def want(term, cb, raw=False):
     TERMS.append((term, cb, raw))
+
+
+EMULATOR_BLOB = [None]      # can seismic_zfp.open() take a blob client at all?  (decided on the first file; if not: skipped)
+
+
+def remote_headers(sgz, n, src_hd, faithful, bad):
+    """header i of a REMOTE reader (the file served by a blob client: hz.CountingBlob) is source header i, for every trace
+    ordinal, in file order and for single headers asked of fresh readers (no header array loaded by an earlier call)"""
+    def diff(got, t):
+        got = {int(k): int(v) for k, v in got.items()}
+        return [(f, got.get(f), src_hd[t][f]) for f in ALL_FIELDS if f in faithful and got.get(f) != src_hd[t][f]]
+    try:
+        with SgzReader(CountingBlob(sgz)) as rb:
+            if rb.local:
+                bad('oracle', 'remote reader', 'a reader opened on a blob client reports local = True')
+            for t in range(n):
+                dd = diff(rb.gen_trace_header(t), t)
+                if dd:
+                    bad('oracle', f'remote gen_trace_header({t})', f'reader on a blob client: gen_trace_header({t}) differs from source '
+                        f'header {t} (field, got, source): {dd[:4]}')
+                    break
+        for t in sorted({n - 1, n // 2}):
+            with SgzReader(CountingBlob(sgz)) as rb:
+                dd = diff(rb.gen_trace_header(t), t)
+                if dd:
+                    bad('oracle', f'remote gen_trace_header({t}) first call', f'fresh reader on a blob client: gen_trace_header({t}) differs '
+                        f'from source header {t} (field, got, source): {dd[:4]}')
+                    break
+        R.count('remote_header_reads', n + 2)
+    except Exception as e:
+        bad('oracle', 'remote gen_trace_header', f'reader on a blob client raised {type(e).__name__}: {str(e)[:160]}')
+    if EMULATOR_BLOB[0] is not False:
+        try:
+            f = seismic_zfp.open(CountingBlob(sgz))
+        except Exception as e:
+            if EMULATOR_BLOB[0] is None:
+                EMULATOR_BLOB[0] = False
+                R.notes.append('seismic_zfp.open() does not take a blob client: remote header[i] not checked')
+            else:
+                bad('oracle', 'remote header[i]', f'seismic_zfp.open on a blob client raised {type(e).__name__}: {str(e)[:160]}')
+            return
+        EMULATOR_BLOB[0] = True
+        try:
+            with f:
+                for t in range(n):
+                    dd = diff(f.header[t], t)
+                    if dd:
+                        bad('oracle', f'remote header[{t}]', f'seismic_zfp.open on a blob client: header[{t}] differs from source header {t} '
+                            f'(field, got, source): {dd[:4]}')
+                        break
+            R.count('remote_emulator_header_reads', n)
+        except Exception as e:
+            bad('oracle', 'remote header[i]', f'seismic_zfp.open on a blob client raised {type(e).__name__}: {str(e)[:160]}')
 
 
 def run_case(c):
@@ -261,7 +337,17 @@ def run_case(c):
     if real_route != 1:
         bad('oracle', 'route', f'segyio reports the file unstructured but the converter route is {real_route} (1 = irregular)')
         return
-    write_segy_sgz(sgy, sgz, bpv=c['bpv'], blockshape=c['bs'], header_detection=c['mode'])
+    if c.get('first'):
+        # one converter object, two runs: the file under test is written by the SECOND run() (another block shape)
+        fb = c['first'][1]
+        with quiet(SegyConverter, sgy) as conv2:
+            quiet(conv2.run, os.path.join(d, 'c_first.sgz'), bits_per_voxel=c['first'][0], blockshape=tuple(fb) if fb is not None else None,
+                  header_detection=c['mode'])
+            quiet(conv2.run, sgz, bits_per_voxel=c['bpv'], blockshape=tuple(c['bs']) if c['bs'] is not None else None,
+                  header_detection=c['mode'])
+        R.count('second run of one converter')
+    else:
+        write_segy_sgz(sgy, sgz, bpv=c['bpv'], blockshape=c['bs'], header_detection=c['mode'])
     # ---- heuristic detection sees only the first and last trace (documented; what it may miss is C04's): the fields it
     # represents faithfully are the constant ones, the varying ones with first != last, and aliases of identical arrays
     faithful = set(ALL_FIELDS)
@@ -380,6 +466,8 @@ def run_case(c):
         # the real mask object
         r.get_unstructured_mask()
         real_positions = [int(v) for v in np.arange(r.mask.shape[0])[r.mask != 0]]
+    if guard:
+        remote_headers(sgz, n, src_hd, faithful, bad)
     if 189 not in stored:
         bad('oracle', 'stored fields', f'inline-number array not stored in mode {c["mode"]}: {stored}')
         return
